@@ -1,3 +1,4 @@
+import codecs
 import errno
 import locale
 import os
@@ -703,11 +704,20 @@ class Runner:
         # process is done running" because sometimes that signal will appear
         # before we've actually read all the data in the stream (i.e.: a race
         # condition).
+        # NOTE: decoding is incremental (one decoder for the whole stream) so
+        # that a multi-byte character cut in two by a read boundary still
+        # decodes as that character instead of a pair of replacement chars.
+        decoder = codecs.getincrementaldecoder(self.encoding)(errors="replace")
         while True:
             data = reader(self.read_chunk_size)
             if not data:
                 break
-            yield self.decode(data)
+            text = decoder.decode(data)
+            if text:
+                yield text
+        tail = decoder.decode(b"", final=True)
+        if tail:
+            yield tail
 
     def write_our_output(self, stream: IO, string: str) -> None:
         """
